@@ -388,7 +388,7 @@ def container_ops(self_move=False, node_forms=True):
         st.just("nopatch"), ctgt, st.just(i), G.model_recipe(pool_class(i)[3], 1, dates="date", objects=False),
         st.sampled_from(["attach", "attach", "attach", "detach", "set", "setattr"])))
     bnd = st.one_of(bnd, bnd, bnd, nopatch, nopatch, st.just(("detach_all",)), st.tuples(st.just("del_root"), cref),
-                    st.tuples(st.just("copy_root"), fresh, st.booleans()),
+                    st.tuples(st.just("copy_root"), fresh, st.booleans()), st.just(("flush",)),
                     st.integers(0, len(POOL) - 1).flatmap(lambda i: st.tuples(
                         st.just("stale"), ctgt, st.just(i), G.model_recipe(pool_class(i)[3], 1, dates="date", objects=False))),
                     st.tuples(st.just("set_node"), cref, fresh, st.sampled_from(["node", "raw", "dtype"])))
@@ -736,6 +736,9 @@ class CSession:
                                         f"{t.driver}: a handle taken before still reports the object after it was deleted", "gone")
             self.classes.add("stale_meta_handle")
             return
+        elif kind == "flush":
+            self.run_all(lambda ti, t: t.mc.flush(), lambda model: None, "flush", {})
+            self.classes.add("flush")
         elif kind == "copy_root":
             # the whole container copied into a new group of itself (snapshot of the user tree and its metadata)
             dst_abs = "/" + op[1]
